@@ -160,7 +160,7 @@ package failsafe
 //@   atexit asref(result, *execution).copied := false
 //@   requires execWellFormed(e) && !held(e.mtx)
 //@   let c := asref(result, *execution)
-//@   ensures [C08.cancellable] typeis(result, *execution) && fresh(c) && c.cancelFunc != nil && uf("ctxof", c.cancelFunc) == c.ctx && c.canceledResult == e.canceledResult && c.mtx == e.mtx && c.attempts == e.attempts && c.isHedge == e.isHedge
+//@   ensures [C08.cancellable+C15.cancel.cell_shared_with_copies] typeis(result, *execution) && fresh(c) && c.cancelFunc != nil && uf("ctxof", c.cancelFunc) == c.ctx && c.canceledResult == e.canceledResult && c.mtx == e.mtx && c.attempts == e.attempts && c.isHedge == e.isHedge
 //@   modifies nothing
 
 // ---------------------------------------------------------------------------------------------
@@ -236,6 +236,11 @@ package failsafe
 //@   requires forall j int :: 0 <= j && j < len(e.policies) ==> e.policies[j] != nil
 //@   havoc
 //@   ensures [C15.runner.publishes] closed(result.doneChan) && atomval(result, "done", "bool")
+//@   oldlet nexec := 0
+//@   oldlet nrec := 0
+//@   oncall (*executor).execute: nexec := nexec + 1; er := callresult
+//@   oncall (*executionResult).record: nrec := nrec + 1; recorded := callarg_1
+//@   ensures [C15.runner.same_path_as_sync] nexec == 1 && nrec == 1 && recorded == er
 //@   modifies closed(result.doneChan), result.done, result.result, *
 
 // ---------------------------------------------------------------------------------------------
